@@ -14,7 +14,7 @@ ANCHORS = [
 REQUIRED_MONITORS = ["truth@setup.cov_mm", "truth@setup.dat", "truth@SSI_fast", "truth@SSI_legacy", "mpe@setup"]
 ALL_STATES = [f"{s}|{r}|{b}|{m}" for s in ("real", "complex") for r in ("ref=all", "ref=subset", "ref=single")
               for b in ("br=nu+1", "br>nu+1") for m in ("cov_mm", "dat")] + ["mpe: two modes inside each other's default tolerance"]
-REQUIRED_STATES = ["mpe: two modes inside each other's default tolerance"]
+REQUIRED_STATES = ["mpe: two modes inside each other's default tolerance", "lowest mode below 0.01 fs, short record"]
 RULE = ("seeded random systems (m 1..6, real/complex shapes, xi 0.2..8 %, f in (0.02,0.45) fs, 2..8 channels, any reference "
         "subset whose numerical observability index nu is finite, br >= nu+1, records 400..3000 samples); a case is "
         "non-trivial when the guards hold (cond(H) <= 1e8, sigma_2m/sigma_2m+1 >= 1e6) and the monitors judged it; distinct = "
@@ -42,6 +42,18 @@ def draw_system(rng, real_only=False, mmax=6):
     cplx = (not real_only) and bool(rng.integers(0, 2))
     xi_rng = (0.002, 0.08)
     fn, xi, Phi, lam = gen.make_system(rng, m, nch, fs, cplx, xi_rng)
+    if rng.random() < 0.15:
+        # the lowest mode far below 0.02 fs: less than one cycle may fit into a short record (still a legal, well-conditioned case)
+        fn = fn.copy()
+        fn[0] = fs * 10 ** rng.uniform(-3.3, -2.0)
+        if m >= 2 and fn[1] - fn[0] < 0.02 * fs:
+            fn[1:] = fn[1:] + 0.02 * fs
+            fn = np.minimum(fn, 0.449 * fs)
+            fn = np.sort(fn) + np.arange(m) * 1e-3 * fs
+        lam = 2 * np.pi * fn * (-xi + 1j * np.sqrt(1 - xi**2))
+        draw_system.low = True
+    else:
+        draw_system.low = False
     if m >= 2 and rng.random() < 0.25:
         # a pair of close modes (2..4 % apart): both lie inside the default extraction tolerance of each other
         j = int(rng.integers(0, m - 1))
@@ -130,6 +142,9 @@ def run_setup(ctx, case, rng, default_hc):
     extra = 0 if rng.random() < 0.4 else int(rng.integers(1, 6))
     br = nu + 1 + extra
     N = int(rng.integers(400, 3001))
+    if getattr(draw_system, "low", False):
+        N = int(rng.integers(250, 900))
+        ctx.state("lowest mode below 0.01 fs, short record")
     N = max(N, 2 * br + 2 + (br + 1) * (nch + len(ref)) + 50)
     Y, _ = gen.free_decay(rng, Phi, lam, fs, N)
     ordmax = 2 * m + int(rng.integers(0, 3))
